@@ -194,6 +194,14 @@ def run(ctx):
 
     goa = el.methods.get("_get_or_add")
     if goa is None:
+        # under another name: the method of the class that looks a creating method up by a name built from its argument
+        for nm_, g_ in el.methods.items():
+            if len(g_.params) == 2 and any(isinstance(x, ast.Call) and dotted(x.func) == "getattr" and len(x.args) == 2 and dotted(x.args[0]) == "self"
+                                           and not isinstance(x.args[1], ast.Constant) for x in ast.walk(g_.node)) \
+                    and "get_or_add" in ast.unparse(g_.node):
+                goa = g_
+    GOA = goa.name if goa is not None else "_get_or_add"
+    if goa is None:
         raise AnalysisError("anchor vanished: CT_CoreProperties._get_or_add")
     fmt = None
     gx, grets = returned_exprs(prog, goa)
@@ -222,7 +230,7 @@ def run(ctx):
     if sst is None:
         raise AnalysisError("anchor vanished: _set_element_text")
     vparam = sst.node.args.args[2].arg
-    sx = _expand(prog, sst, local_only=True, skip_names=("_get_or_add",))
+    sx = _expand(prog, sst, local_only=True, skip_names=(GOA,))
     sal, sval = P_.aliases(sx), P_.value_aliases(sx)
 
     def mutating(st):
@@ -389,7 +397,7 @@ def run(ctx):
     # the setter in canonical form: a validation extracted into a helper is read in place
     body = _body(sdt)
     try:
-        _sx = _expand(prog, sdt, local_only=True, skip_names=("_get_or_add",))
+        _sx = _expand(prog, sdt, local_only=True, skip_names=(GOA,))
         body = [s_ for s_ in _sx.body if not (isinstance(s_, ast.Expr) and isinstance(s_.value, ast.Constant))]
     except Exception:  # noqa: BLE001
         pass
@@ -563,7 +571,7 @@ def run(ctx):
     from sa import paths as P_
     from sa.desugar import desugar as _desugar
 
-    dsd = _expand(prog, sdt, local_only=True, skip_names=("_get_or_add",))   # an extracted tagging helper is read in place
+    dsd = _expand(prog, sdt, local_only=True, skip_names=(GOA,))   # an extracted tagging helper is read in place
     pname = sdt.node.args.args[1].arg
     tagged_for, untagged_for, value_ok, unknown = set(), set(), True, []
     ALLP = {v[1].split(":")[1] if False else k for k, v in {}.items()}
